@@ -45,6 +45,7 @@ Theorem attribute_conditions : forall a t,
     | PEq v => aget a k = Some v
     | PChoice vs => exists x, aget a k = Some x /\ In x vs
     | PNot v => aget a k <> Some v
+    | PList _ => False
     end.
 Proof. intros a t. rewrite attributes_match_spec. split; intros H k q Hin; apply pred_ok_spec; apply H; exact Hin. Qed.
 Print Assumptions attribute_conditions.
@@ -98,7 +99,7 @@ Proof. intros Ls m t j. unfold do_links. apply (do_links_origin_gen Ls (m, [])).
 Print Assumptions no_unjustified_interaction.
 
 (* non-vacuity: an angle link  -BB BB +BB  on a 4-residue chain with a numbering gap fits at exactly one place *)
-Definition ex_node k r := {| m_key := k; m_resid := r; m_attrs := [(1, 7)] |}.
+Definition ex_node k r := {| m_key := k; m_resid := r; m_attrs := [(1, 7)]; m_mods := [] |}.
 Definition ex_mol := {| nodes := [ex_node 0 1; ex_node 1 2; ex_node 2 3; ex_node 3 5];
                         edges := [(0, 1); (1, 2); (2, 3)]; inters := []; meta := [] |}.
 Definition ex_ln k o := {| l_key := k; l_order := o; l_tmpl := [(1, PEq 7)]; l_replace := None |}.
